@@ -60,6 +60,8 @@ _EDIT_WEIGHTS = {
     "section_delete": 1,
 }
 
+_BETWEEN_WEIGHTS = {"page_mv": 5, "page_delete": 4, "word_change": 3, "note_insert": 3, "note_delete": 2, "page_add": 1, "cutpaste": 1}
+
 BROKEN_TAILS = ["stray words without a prefix", "O capital letter", "-no space after dash", " leading space"]
 
 
@@ -95,6 +97,10 @@ def gen_case(rng: random.Random, tier: str) -> dict:
         "days": rng.choice([0, 1, 1, 1, 7, 40]) if prior else 0,
         "cmd": cmd,
         "broken_page": broken,
+        # the user does not wait for recovery: at about a quarter of the crash points a few
+        # edits (incl. deleting / renaming pages) happen between the kill and the rerun
+        "between": [gen.gen_edit(rng, feats, _BETWEEN_WEIGHTS) for _ in range(rng.randint(1, 2))],
+        "between_salt": rng.randrange(4),
         # thorough: a second kill during the rerun at a seeded boundary, for a share of the crash points
         "second_crash": [rng.random() for _ in range(4)] if tier == "thorough" else [],
         "torn": torn,
@@ -197,10 +203,12 @@ def execute(case: dict, scratch: str) -> dict:
     rec.proc(cmd, None, og, golden)
     if og.status != "ok":
         rec.stat("skipped:golden-failed")
+        rec.stat("skipped:golden-failed:" + ((og.exc or {}).get("type") or og.status) + "@" + (((og.exc or {}).get("where") or [["", "?"]])[-1][1]))
         return rec.result()
     problems = oracles.agreement_problems(golden) or oracles.noop_reindex_problems(golden, os.path.join(scratch, "noop"))
     if problems:
         rec.stat("skipped:golden-not-in-agreement")
+        rec.stat("skipped:golden-not-in-agreement:" + problems[0]["clause"])
         rec.note("golden-not-in-agreement", clause=problems[0]["clause"])
         return rec.result()
     effects = og.effects
@@ -254,6 +262,16 @@ def execute(case: dict, scratch: str) -> dict:
             if 0 < plan["k"]:
                 # distinct non-trivial case = (boundary class, world state the crash left behind)
                 rec.nontrivial.append(cls + "@" + rec.states[-1])
+            bt, bz = before_text, before_zids
+            # (not for explicit-path commands: those do not promise to notice deleted / renamed pages)
+            if case.get("between") and not cmd.get("paths") and (len(plans) < 3 or (plans.index(plan) + case.get("between_salt", 0)) % 4 == 0):
+                reports = user.apply_edits(twin.zdir, case["between"], twin.day)
+                if any(r.get("applied") for r in reports):
+                    rec.probe("user-edits-between-kill-and-rerun")
+                    rec.probe("page-deleted-or-renamed-between-kill-and-rerun", int(any("deleted" in r or "renamed" in r for r in reports)))
+                    cls = cls + "+user-edits"
+                    bt, bz = _user_texts(twin.zdir), _primary_zids(twin.zdir)
+                    rec.note("between", reports=reports)
             # thorough: for a share of the crash points the rerun is killed as well
             # (at a seeded boundary of ITS effect sequence) before the final rerun
             sc = case.get("second_crash") or []
@@ -269,9 +287,15 @@ def execute(case: dict, scratch: str) -> dict:
                     if o2.status == "crash":
                         rec.probe("second-crash-during-rerun")
                         cls = cls + "+second-crash"
-            orr = twin.run(cmd)
-            rec.proc(cmd, None, orr, twin)
-            v = _judge(twin, orr, cls, plan, before_text, before_zids, scratch)
+            rerun_cmd = cmd
+            orr = twin.run(rerun_cmd)
+            rec.proc(rerun_cmd, None, orr, twin)
+            if orr.refused and "+user-edits" in cls and case.get("broken_page"):
+                # the user renamed the whitelisted broken page: refusing it under its new
+                # name is what C08 demands, not a failure to converge
+                rec.stat("rerun-refused-legitimately")
+                continue
+            v = _judge(twin, orr, cls, plan, bt, bz, scratch)
             if v:
                 v["detail"]["plan"] = plan
                 v["detail"]["effects"] = [_eff_class(e) for e in effects]
